@@ -43,8 +43,8 @@ PROPS = {
         "level_text": "Machine-checked proof, for every well-formed tree, every pattern (concrete, wildcard, regex at any level, with the regex matcher an arbitrary parameter) and every history of subscribe/unsubscribe/invalidate/shrink/notify from the empty router, that notify's delivery log is exactly the observers stored under the keys that have as many levels as the pattern and match it level by level (each valid observer once, with the passed value), that the returned count is the number of matched keys holding a subject, that stored keys are pairwise different and children stay ordered, and that with fresh observer ids no observer occurs twice in a log. Argument passing through the templates (by value, const reference, several arguments, by-value class) is outside the model and is covered by the correspondence run on the real code for both router classes.",
         "level_note": "Trusted: Lean kernel; transcription of SubjectRouter.{h,cpp}, RoutingLevelView, RoutingKeyBuilder; std::map/forward_list/set/function as modelled; std::regex is an abstract matcher in the theorems (the tie covers literal . * + ? [set] | ( )); the reinterpret_cast of Subject<> is UB outside the model; delivery order across keys is compared as a multiset.",
 
-        "lean_modules": ["Tulz.Props.C06"],
-        "theorems": ["Tulz.C06_flat_nodup", "Tulz.C06_notify", "Tulz.C06_notify_ids_once", "Tulz.C06_history", "Tulz.C06_history_sorted", "Tulz.C06_history_once"],
+        "lean_modules": ["Tulz.Props.C06", "Tulz.Props.C06C05"],
+        "theorems": ["Tulz.C06_leaf_is_C05", "Tulz.C06_flat_nodup", "Tulz.C06_notify", "Tulz.C06_notify_ids_once", "Tulz.C06_history", "Tulz.C06_history_sorted", "Tulz.C06_history_once"],
         "trusted_base": COMMON_TB,
         "assumptions": ["every notify passes arguments of the signature the reached subjects were subscribed with (the API's own precondition)",
                         "callbacks do not call back into the router (re-entrancy is C10)"],
